@@ -581,6 +581,7 @@ def run(program, res, tier):
     _s5_jointypes(program, res)
     c16.polars_coalesce_rule(program, Relabel(res, {"*": "C03-S5"}), rule="C03-S5")
     c16.coalesce_exemption_rule(program, Relabel(res, {"*": "C03-S5"}), rule="C03-S5")
+    c16.polars_orphan_key_rule(program, Relabel(res, {"*": "C03-S5"}), rule="C03-S5")
     c16.polars_join_guard_rule(program, Relabel(res, {"*": "C03-S5"}), rule="C03-S5")
     c16.polars_full_join_keys_rule(program, Relabel(res, {"*": "C03-S5"}), rule="C03-S5")
     c08._s2(program, Relabel(res, {"*": "C03-S6"}))
